@@ -728,7 +728,11 @@ func (cs *ConsensusState) handleMsg(mi msgInfo, rs RoundState) {
 		err = cs.setProposal(msg.Proposal)
 	case *BlockPartMessage:
 		// if the proposal is complete, we'll enterPrevote or tryFinalizeCommit
-		_, err = cs.addProposalBlockPart(msg.Height, msg.Part, peerKey != "")
+		// Always verify the part against the header of the part set we are filling: our own
+		// queued parts may belong to a proposal that is no longer the block we are waiting for
+		// (e.g. after +2/3 precommits for another block), and an unverified part would complete
+		// the set with the wrong block and lock out the genuine parts as duplicates.
+		_, err = cs.addProposalBlockPart(msg.Height, msg.Part, true)
 		if err != nil && msg.Round != cs.Round {
 			err = nil
 		}
